@@ -115,33 +115,51 @@ def coq_build(targets, timeout=2400):
         return time.time() - t0
 
 
-def run_pins(prop):
-    """Compile coq/pins/<prop>.v: `Check (thm : statement)` pins each statement, `Print Assumptions`
-    must report closure (or allowed axioms only). Returns list of (theorem, status, detail)."""
+def pins_output(prop):
     pin = os.path.join(COQ, "pins", prop + ".v")
-    src = open(pin).read()
-    theorems = re.findall(r"Print Assumptions\s+([A-Za-z0-9_'.]+)\s*\.", src)
     outdir = os.path.join(CACHE, "pins")
     os.makedirs(outdir, exist_ok=True)
-    rc, out = sh(["coqc", "-Q", "theories", "SFV", "-o", os.path.join(outdir, prop + ".vo"), pin], cwd=COQ, timeout=600)
+    rc, out = sh(["coqc", "-Q", "theories", "SFV", "-o", os.path.join(outdir, prop + ".vo"), pin], cwd=COQ, timeout=900)
     if rc != 0:
-        raise Failure("broken_obligation", f"pinned statements of {prop} no longer check (coq/pins/{prop}.v)",
+        raise Failure("broken_obligation", f"pinned theorems of {prop} no longer check (coq/pins/{prop}.v)",
                       "\n".join(out.splitlines()[-30:]))
-    # split output into one block per Print Assumptions
-    blocks = re.split(r"(?=Closed under the global context|Axioms:)", out)
-    blocks = [b for b in blocks if b.startswith("Closed under") or b.startswith("Axioms:")]
-    res = []
-    for i, th in enumerate(theorems):
-        if i >= len(blocks):
-            res.append((th, False, "no Print Assumptions output"))
-            continue
-        b = blocks[i]
-        if b.startswith("Closed under"):
-            res.append((th, True, "closed under the global context"))
+    stmts, assum = {}, {}
+    cur, kind, buf = None, None, []
+    def flush():
+        if cur is not None:
+            (stmts if kind == "T" else assum)[cur] = " ".join(" ".join(buf).split())
+    for line in out.splitlines():
+        m = re.match(r"@@(THEOREM|ASSUMPTIONS|END)\s*(\S*)", line)
+        if m:
+            flush(); buf = []
+            cur, kind = (m.group(2), "T" if m.group(1) == "THEOREM" else "A") if m.group(1) != "END" else (None, None)
         else:
-            names = re.findall(r"^([A-Za-z0-9_'.]+)\s*:", b, re.M)
+            buf.append(line)
+    return stmts, assum
+
+
+def run_pins(prop):
+    """Compile coq/pins/<prop>.v. For every pinned theorem: the printed statement must equal the golden
+    one (coq/pins/<prop>.golden) and Print Assumptions must report closure (or allowed axioms only).
+    Returns list of (theorem, ok, detail)."""
+    stmts, assum = pins_output(prop)
+    gpath = os.path.join(COQ, "pins", prop + ".golden")
+    golden = json.load(open(gpath)) if os.path.exists(gpath) else {}
+    res = []
+    for th in sorted(set(golden) | set(stmts)):
+        if th not in stmts:
+            res.append((th, False, "pinned theorem no longer exists")); continue
+        if th not in golden:
+            res.append((th, False, "theorem is not in the golden file (run ./check relock)")); continue
+        if golden[th] != stmts[th]:
+            res.append((th, False, "statement differs from the pinned one")); continue
+        a = assum.get(th, "")
+        if a.startswith("Closed under the global context"):
+            res.append((th, True, "statement as pinned; closed under the global context"))
+        else:
+            names = re.findall(r"([A-Za-z0-9_'.]+)\s*:", a)
             extra = [n for n in names if n not in ALLOWED_AXIOMS]
-            res.append((th, not extra, "axioms: " + ", ".join(names)))
+            res.append((th, not extra and bool(a), "axioms: " + (", ".join(names) or a[:100])))
     return res
 
 
@@ -154,7 +172,7 @@ def statements_lock_check(prop):
                 h, f = line.split()
                 want[f] = h
     bad = []
-    for f in (f"coq/theories/Properties/{prop}.v", f"coq/pins/{prop}.v"):
+    for f in (f"coq/theories/Properties/{prop}.v", f"coq/pins/{prop}.v", f"coq/pins/{prop}.golden"):
         p = os.path.join(VERIF, f)
         h = hashlib.sha256(open(p, "rb").read()).hexdigest()
         if want.get(f) != h:
@@ -164,7 +182,11 @@ def statements_lock_check(prop):
 
 def relock():
     lines = []
-    for f in sorted(glob.glob(os.path.join(COQ, "theories/Properties/*.v")) + glob.glob(os.path.join(COQ, "pins/*.v"))):
+    for pin in sorted(glob.glob(os.path.join(COQ, "pins/*.v"))):
+        prop = os.path.basename(pin)[:-2]
+        stmts, _ = pins_output(prop)
+        json.dump(stmts, open(os.path.join(COQ, "pins", prop + ".golden"), "w"), indent=1, sort_keys=True)
+    for f in sorted(glob.glob(os.path.join(COQ, "theories/Properties/*.v")) + glob.glob(os.path.join(COQ, "pins/*.v")) + glob.glob(os.path.join(COQ, "pins/*.golden"))):
         lines.append(hashlib.sha256(open(f, "rb").read()).hexdigest() + " " + os.path.relpath(f, VERIF))
     open(os.path.join(VERIF, "statements.lock"), "w").write("\n".join(lines) + "\n")
 
@@ -226,14 +248,58 @@ def run_harness(binary, comp, seed, tier, outdir, extra=(), timeout=1800):
     return json.load(open(os.path.join(outdir, "stats.json")))
 
 
-def run_driver(driver, comp, outdir, timeout=1800, cases="cases.txt", model="model.txt"):
-    with open(os.path.join(outdir, model), "w") as f:
+def run_driver(driver, comp, outdir, timeout=1800, cases="cases.txt", model="model.txt", shards=16):
+    """Run the extracted model on the case file; the file is split into shards of whole CASE blocks
+    (balanced by size) that run in parallel, outputs are concatenated in case order."""
+    path = os.path.join(outdir, cases)
+    blocks, cur = [], []
+    with open(path) as f:
+        for l in f:
+            cur.append(l)
+            if l.strip() == "END":
+                blocks.append(cur); cur = []
+    if cur:
+        blocks.append(cur)
+    nsh = max(1, min(shards, len(blocks)))
+    # greedy balance by squared block size (the list-based model is superlinear in document size)
+    order = sorted(range(len(blocks)), key=lambda i: -sum(len(x) for x in blocks[i]))
+    loads, assign = [0] * nsh, [[] for _ in range(nsh)]
+    for i in order:
+        k = loads.index(min(loads))
+        w = sum(len(x) for x in blocks[i])
+        loads[k] += w * w // 1000 + w
+        assign[k].append(i)
+    procs = []
+    for k in range(nsh):
+        sp = os.path.join(outdir, f"shard{k}.txt")
+        with open(sp, "w") as f:
+            for i in sorted(assign[k]):
+                f.writelines(blocks[i])
+        so = open(os.path.join(outdir, f"shard{k}.out"), "w")
+        procs.append((subprocess.Popen([driver, comp, sp], stdout=so, stderr=subprocess.PIPE, text=True), so, k))
+    t0 = time.time()
+    outs = {}
+    for p, so, k in procs:
         try:
-            p = subprocess.run([driver, comp, os.path.join(outdir, cases)], stdout=f, stderr=subprocess.PIPE, text=True, timeout=timeout)
+            _, err = p.communicate(timeout=max(1, timeout - (time.time() - t0)))
         except subprocess.TimeoutExpired:
-            raise Failure("broken_correspondence", f"model driver {comp} timed out")
-    if p.returncode != 0:
-        raise Failure("broken_correspondence", f"model driver {comp} exited with {p.returncode}", p.stderr[-3000:])
+            for q, _, _ in procs:
+                q.kill()
+            raise Failure("broken_correspondence", f"model driver {comp} timed out after {timeout}s")
+        so.close()
+        if p.returncode != 0:
+            raise Failure("broken_correspondence", f"model driver {comp} exited with {p.returncode}", (err or "")[-3000:])
+    # merge in case order: every output line is "<M|S> <case id> ..."
+    per_case = {}
+    for k in range(nsh):
+        with open(os.path.join(outdir, f"shard{k}.out")) as f:
+            for l in f:
+                cid = l.split(" ", 2)[1]
+                per_case.setdefault(cid, []).append(l)
+    with open(os.path.join(outdir, model), "w") as f:
+        for b in blocks:
+            cid = b[0].split()[1]
+            f.writelines(per_case.get(cid, []))
 
 
 def read_lines(path):
